@@ -201,7 +201,7 @@ pub fn stop_class<E>(r: &Reason<E>) -> StopClass {
     }
 }
 
-pub async fn control_handler(w: Rc<World>, conn: usize, gated: bool, msg: Control<AppErr>) -> Result<Option<codec::Encoded>, AppErr> {
+pub async fn control_handler(w: Rc<World>, conn: usize, gated: bool, msg: Control<AppErr>, sink: Option<v5::MqttSink>) -> Result<Option<codec::Encoded>, AppErr> {
     match msg {
         Control::WrBackpressure(st) => {
             w.ev(Ev::Control { conn, wr: Some(st.enabled()), stop: None });
@@ -210,6 +210,12 @@ pub async fn control_handler(w: Rc<World>, conn: usize, gated: bool, msg: Contro
         Control::Stop(reason) => {
             let cls = stop_class(&reason);
             w.ev(Ev::Control { conn, wr: None, stop: Some(cls.clone()) });
+            if let Some(sink) = &sink {
+                // one more awaiting send while the end of the connection is being handled: it must fail, or
+                // respect the window like any other
+                let r = sink.publish(ByteString::from("hc/stop")).send_at_least_once(Bytes::from_static(b"bye")).await;
+                w.ev(Ev::Note { what: format!("send from the Stop handler: {}", if r.is_ok() { "acked" } else { "failed" }) });
+            }
             let outcome = if gated {
                 let (gid, imm) =
                     w.gate_enter(conn, GateKind::Control, GateDesc::Control { brief: format!("{cls:?}") });
@@ -331,9 +337,10 @@ macro_rules! v5_parts {
     let (w2, p2) = (w.clone(), plan.clone());
     let ctl = fn_factory_with_config(move |ses: v5::Session<St>| {
         let (w, gated, conn) = (w2.clone(), p2.cfg.ctl_gated, ses.conn);
+        let ctl_sink = if p2.cfg.ctl_sends { Some(ses.sink().clone()) } else { None };
         w.ev(Ev::Session { conn });
         async move {
-            Ok::<_, AppErr>(fn_service(move |msg: Control<AppErr>| control_handler(w.clone(), conn, gated, msg)))
+            Ok::<_, AppErr>(fn_service(move |msg: Control<AppErr>| control_handler(w.clone(), conn, gated, msg, ctl_sink.clone())))
         }
     });
 
@@ -923,7 +930,7 @@ pub async fn run_client(w: Rc<World>, plan: Rc<Plan>) {
             client
                 .start_with_control(
                     crate::common::GSvc { w: wa.clone(), conn: 0, f: move |m: v5::client::ProtocolMessage| client_proto_handler(wa.clone(), m) },
-                    fn_service(move |m: Control<AppErr>| control_handler(wb.clone(), 0, gated, m)),
+                    fn_service(move |m: Control<AppErr>| control_handler(wb.clone(), 0, gated, m, None)),
                 )
                 .await
                 .map_err(|e| format!("{e:?}"))
